@@ -757,6 +757,8 @@ class DefaultControllerPlugin(ControllerPluginBase):
             return template % (name, 'abnormal termination')
         elif code == xmlrpc.Faults.SUCCESS:
             return '%s: started' % name
+        elif code == xmlrpc.Faults.FAILED:
+            return result['description']
         # assertion
         raise ValueError('Unknown result code %s for %s' % (code, name))
 
